@@ -37,6 +37,12 @@ SAFE: Dict[str, str] = {
     "vtlengine.Operators.Time.Fill_time_series.measures": "written, never read",
     "vtlengine.Operators.Time.Fill_time_series.other_ids": "written, never read",
 }
+# globals that are safe as long as every access stays inside the named module prefix (checked on every run)
+CONFINED: Dict[str, Tuple[Tuple[str, ...], str]] = {
+    "vtlengine.AST.ASTDataExchange.de_ruleset_elements": (("vtlengine.AST.ASTConstructor",),
+        "every writer and reader is an AST-constructor method (checked), and the constructor only runs inside `with parser_lock` (R17.1), so accesses are "
+        "serialised; what survives from one parse to the next is decided under C23 (R23.3)"),
+}
 
 
 def under_lock(n: ast.AST, lock_names: Set[str]) -> bool:
@@ -111,6 +117,12 @@ def run(rep: Report, tier: str) -> None:
         rep.instance("R17.2", q, nontrivial=True, sample={"global": q, "writers": writers[:3], "readers": readers[:3], "classified_safe": q in SAFE})
         if not writers:
             continue
+        if q in CONFINED:
+            pref, why = CONFINED[q]
+            outside = [x for x in list(gvar.writers) + list(gvar.mutators) + list(gvar.readers) if not x.startswith(pref)]
+            if not outside:
+                rep.exemption("R17.2", q, why)
+                continue
         if q in SAFE:
             rep.exemption("R17.2", q, SAFE[q])
             continue
